@@ -60,8 +60,8 @@ Print Assumptions batch_size_commit_effect.
 
 (* a non-empty batch always has its age commit pending (the timer runs, or has fired and is not read yet) ... *)
 Theorem batch_age_commit_pending (A : Type) qcap maxsize (es : list (bev A)) :
-  let s := brun (mk_bcfg qcap maxsize true true) es in pend s <> [] -> armed (tm s).
-Proof. exact (age_commit_pending (mk_bcfg qcap maxsize true true) es eq_refl). Qed.
+  let s := brun (mk_bcfg qcap maxsize true true true) es in pend s <> [] -> armed (tm s).
+Proof. exact (age_commit_pending (mk_bcfg qcap maxsize true true true) es eq_refl). Qed.
 Print Assumptions batch_age_commit_pending.
 
 (* ... and the timer branch commits the whole batch, or keeps it and re-arms the timer *)
@@ -83,13 +83,13 @@ Print Assumptions batch_empty_batch_not_committed.
 
 (* ... hence no committed batch is ever empty: every schedule, every outcome of every Add/Rm and Commit *)
 Theorem batch_never_commits_empty_batch (A : Type) qcap maxsize (es : list (bev A)) :
-  Forall (fun b : list A => b <> []) (committed (brun (mk_bcfg qcap maxsize true true) es)).
-Proof. exact (never_commits_empty (mk_bcfg qcap maxsize true true) es eq_refl eq_refl). Qed.
+  Forall (fun b : list A => b <> []) (committed (brun (mk_bcfg qcap maxsize true true true) es)).
+Proof. exact (never_commits_empty (mk_bcfg qcap maxsize true true true) es eq_refl eq_refl). Qed.
 Print Assumptions batch_never_commits_empty_batch.
 
 (* the code before the fix: the only operation of a batch fails in Add/Rm, the timer fires, an empty batch is committed *)
 Theorem batch_empty_commit_before_fix_refuted :
-  exists qcap maxsize (es : list (bev N)), In [] (committed (brun (mk_bcfg qcap maxsize true false) es)).
+  exists qcap maxsize (es : list (bev N)), In [] (committed (brun (mk_bcfg qcap maxsize true false false) es)).
 Proof. exact empty_commit_before_fix. Qed.
 Print Assumptions batch_empty_commit_before_fix_refuted.
 
@@ -100,17 +100,38 @@ Theorem batch_rejected_has_no_effect (A : Type) (c : bcfg) (s : bst A) (i : A) :
 Proof. exact (rejected_no_effect c s i). Qed.
 Print Assumptions batch_rejected_has_no_effect.
 
+(* S35, repaired (fix: crdt Shutdown commits the operations already accepted for batching): Shutdown closes the queue
+   (LogPin/LogUnpin are refused from then on: `Reject`), the worker goes on taking what is queued and, when it finds the
+   closed queue empty, commits the open batch (`StopCommit`) and returns; Shutdown waits for that. For every schedule that
+   brought the worker to that point, once the commit succeeds every accepted operation has been handed to Add/Rm and every
+   operation whose Add/Rm succeeded is in a committed batch: a restart on the same datastore sees all of them. *)
+Theorem batch_shutdown_loses_nothing_accepted (A : Type) qcap maxsize s28 (es : list (bev A)) :
+  let c := mk_bcfg qcap maxsize true s28 true in
+  let s := brun c es in queue s = [] -> pc s = PIdle ->
+  let s1 := bstep c s (StopCommit true) in
+  pend s1 = [] /\ queue s1 = [] /\ accepted s1 = map fst (tlog s1) /\ added (tlog s1) = concat (committed s1).
+Proof. exact (shutdown_loses_nothing (mk_bcfg qcap maxsize true s28 true) es eq_refl eq_refl). Qed.
+Print Assumptions batch_shutdown_loses_nothing_accepted.
+
+(* the code before the fix: the worker returned on ctx.Done(): an operation in the open batch and one in the queue, both
+   accepted, are in no committed batch *)
+Theorem batch_shutdown_drops_accepted_before_fix_refuted :
+  exists qcap maxsize (es : list (bev N)),
+    let s := brun (mk_bcfg qcap maxsize true true false) es in accepted s = [1; 2] /\ committed s = [].
+Proof. exact shutdown_drops_accepted_before_fix. Qed.
+Print Assumptions batch_shutdown_drops_accepted_before_fix_refuted.
+
 (* S2, repaired (fix: re-arm the crdt batch timer when the age-limit commit fails): full strength, every schedule,
    every outcome of every Add/Rm and Commit, every queue capacity and batch size *)
 Theorem batch_worker_never_blocks (A : Type) qcap maxsize (es : list (bev A)) :
-  blocked (brun (mk_bcfg qcap maxsize true true) es) = false.
-Proof. exact (never_blocks (mk_bcfg qcap maxsize true true) es eq_refl). Qed.
+  blocked (brun (mk_bcfg qcap maxsize true true true) es) = false.
+Proof. exact (never_blocks (mk_bcfg qcap maxsize true true true) es eq_refl). Qed.
 Print Assumptions batch_worker_never_blocks.
 
 (* the code before the fix: the schedule observed on the real code blocks the worker with an accepted operation queued *)
 Theorem batch_timer_deadlock_before_fix_refuted :
   exists qcap maxsize (es : list (bev N)),
-    let s := brun (mk_bcfg qcap maxsize false false) es in blocked s = true /\ queue s <> [] /\ accepted s = [1; 2; 3; 4].
+    let s := brun (mk_bcfg qcap maxsize false false false) es in blocked s = true /\ queue s <> [] /\ accepted s = [1; 2; 3; 4].
 Proof. exact deadlock_before_fix_stmt. Qed.
 Print Assumptions batch_timer_deadlock_before_fix_refuted.
 
@@ -133,29 +154,29 @@ Print Assumptions batch_timed_refines_untimed.
    the channel yet, or it is running and expires exactly max_age after the anchor of the batch = the instant its first
    operation was taken from the queue, or the last failed age-limit commit after that. Every schedule, every outcome. *)
 Theorem batch_age_timer_discipline (A : Type) qcap maxsize age (tes : list (cev A)) :
-  let c := mk_tcfg (mk_bcfg qcap maxsize true true) age false in
+  let c := mk_tcfg (mk_bcfg qcap maxsize true true true) age false in
   let s := trun c tes in
   length (ptimes (ti s)) = length (pend (core s)) /\
   (pend (core s) <> [] ->
      (t_active (tm (core s)) = true /\ twhen (ti s) = age_anchor s + age) \/ t_chan (tm (core s)) = true).
-Proof. exact (age_timer_discipline (mk_tcfg (mk_bcfg qcap maxsize true true) age false) tes eq_refl eq_refl). Qed.
+Proof. exact (age_timer_discipline (mk_tcfg (mk_bcfg qcap maxsize true true true) age false) tes eq_refl eq_refl). Qed.
 Print Assumptions batch_age_timer_discipline.
 
 (* the age limit: in every schedule in which the runtime fires a due timer within lf and the worker reads a fired timer
    within lw, a pending batch is never older than max_age + lf + lw counted from its anchor ... *)
 Theorem batch_age_bound_anchor (A : Type) qcap maxsize age lf lw (tes : list (cev A)) :
-  let c := mk_tcfg (mk_bcfg qcap maxsize true true) age false in
+  let c := mk_tcfg (mk_bcfg qcap maxsize true true true) age false in
   timely_from lf lw c tinit tes = true ->
   let s := trun c tes in
   pend (core s) <> [] -> now (ti s) <= age_anchor s + age + lf + lw.
-Proof. exact (age_bound (mk_tcfg (mk_bcfg qcap maxsize true true) age false) lf lw tes eq_refl eq_refl). Qed.
+Proof. exact (age_bound (mk_tcfg (mk_bcfg qcap maxsize true true true) age false) lf lw tes eq_refl eq_refl). Qed.
 Print Assumptions batch_age_bound_anchor.
 
 (* ... so an operation that is still waiting in the batch was taken from the queue at most max_age + lf + lw ago, as long
    as no age-limit commit of its batch failed; after such a failure the bound counts from the failure (the re-arm).
    Operations leave the pending batch only through a successful commit (batch_no_loss_no_reorder). *)
 Theorem batch_age_bound (A : Type) qcap maxsize age lf lw (tes : list (cev A)) :
-  let c := mk_tcfg (mk_bcfg qcap maxsize true true) age false in
+  let c := mk_tcfg (mk_bcfg qcap maxsize true true true) age false in
   timely_from lf lw c tinit tes = true ->
   let s := trun c tes in
   forall t, In t (ptimes (ti s)) ->
@@ -163,7 +184,7 @@ Theorem batch_age_bound (A : Type) qcap maxsize age lf lw (tes : list (cev A)) :
     | None => now (ti s) <= t + age + lf + lw
     | Some r => now (ti s) <= r + age + lf + lw
     end.
-Proof. exact (age_bound_items (mk_tcfg (mk_bcfg qcap maxsize true true) age false) lf lw tes eq_refl eq_refl). Qed.
+Proof. exact (age_bound_items (mk_tcfg (mk_bcfg qcap maxsize true true true) age false) lf lw tes eq_refl eq_refl). Qed.
 Print Assumptions batch_age_bound.
 
 (* the bound is about WHERE Reset is called: the machine that re-arms the timer on every dequeued operation (not the code)
@@ -183,7 +204,7 @@ Print Assumptions batch_age_bound_fails_when_rearmed_on_every_item.
    failed age-limit commit of its batch: max_age + lf + lw from that failure). `accept_to_commit_limit` is the limit the
    monitor of H1 applies to the measured (accepted, in effect) instants. *)
 Theorem batch_accept_to_commit_bound (A : Type) qcap maxsize s28 age lf lw lt lc (tes : list (cev A)) :
-  let c := mk_tcfg (mk_bcfg qcap maxsize true s28) age false in
+  let c := mk_tcfg (mk_bcfg qcap maxsize true s28 s28) age false in
   timely_all lf lw lt lc c (tinit, qinit) tes = true ->
   let sq := qrun c tes in
   (forall a, In a (qtimes (snd sq)) -> now (ti (fst sq)) <= a + queue_wait_limit c lt lc) /\
@@ -192,7 +213,7 @@ Theorem batch_accept_to_commit_bound (A : Type) qcap maxsize s28 age lf lw lt lc
      | None => now (ti (fst sq)) <= a + accept_to_commit_limit c lf lw lt lc
      | Some r => now (ti (fst sq)) <= r + age + lf + lw
      end).
-Proof. exact (accept_bound lf lw lt lc (mk_tcfg (mk_bcfg qcap maxsize true s28) age false) eq_refl eq_refl tes). Qed.
+Proof. exact (accept_bound lf lw lt lc (mk_tcfg (mk_bcfg qcap maxsize true s28 s28) age false) eq_refl eq_refl tes). Qed.
 Print Assumptions batch_accept_to_commit_bound.
 
 (* ------------------------------------------------------------------ layer B: the replicated set *)
@@ -338,7 +359,7 @@ Example value_guard_inhabited :
   value_guard [mk_delta 1 1 [(7, 5)] []; mk_delta 2 1 [(7, 6)] []; mk_delta 3 2 [] [(7, 1)]] 7.
 Proof. exact guard_example. Qed.
 Example batch_example :
-  let s := brun (mk_bcfg 2 2 true true) [Enq 1; Enq 2; Enq 3; Take true; Take true; SizeCommit true; Enq 4] in
+  let s := brun (mk_bcfg 2 2 true true true) [Enq 1; Enq 2; Enq 3; Take true; Take true; SizeCommit true; Enq 4] in
   accepted s = [1; 2; 4] /\ refused s = [3] /\ committed s = [[1; 2]] /\ queue s = [4].
 Proof. exact batch_example_l. Qed.
 Example batch_trickle_example :
@@ -354,7 +375,7 @@ Example relay_line_example :
   value (pinset_of line_pol 1 arrA) 8 = Some 6 /\ value (pinset_of line_pol 3 arrC) 8 = Some 6.
 Proof. exact line_example. Qed.
 Example batch_empty_batch_example :
-  let s := brun (mk_bcfg 10 3 true true) s28_schedule in committed s = [] /\ t_chan (tm s) = false /\ tlog s = [(1, false)].
+  let s := brun (mk_bcfg 10 3 true true true) s28_schedule in committed s = [] /\ t_chan (tm s) = false /\ tlog s = [(1, false)].
 Proof. exact no_empty_commit_after_fix. Qed.
 Example relay_must_trust_signer_example :
   trusts line_pol_b 1 3 = true /\ deliverable 3 line_pol_b [(1, 2); (2, 3)] 3 1 = false /\
@@ -366,3 +387,7 @@ Example batch_burst_example :
   committed (core (fst sq)) = [[1; 2]; [3]] /\ now (ti (fst sq)) = 20 /\
   queue_wait_limit burst_cfg 2 3 = 15 /\ accept_to_commit_limit burst_cfg 1 1 2 3 = 27.
 Proof. exact burst_example. Qed.
+Example batch_shutdown_example :
+  let s := brun (mk_bcfg 10 3 true true true) [Enq 1; Take true; Enq 2; Take true; StopCommit true] in
+  accepted s = [1; 2] /\ committed s = [[1; 2]] /\ pend s = [] /\ queue s = [].
+Proof. exact shutdown_commits_after_fix. Qed.
